@@ -195,6 +195,19 @@ def build(run):
         lambda: ((f * u[i] * u[i] + u[1] * f * f) * dx, derivative((f * u[i] * u[i] + u[1] * f * f) * dx, (u[1], f), (v2f, vf)),
                  [{**comp_seed(u, {(1,): (v2f, ())}), **whole(f, vf)}]))
 
+    # the differentiation variable lives in a degree-0 space (cellwise constant in space, but a variable of the Gateaux derivative):
+    # shortcuts valid for spatial gradients ("the operand is cellwise constant, so its derivative vanishes") do not apply
+    D0 = ufl.FunctionSpace(tri, E.FiniteElement("Discontinuous Lagrange", cell, 0, (), ufl.pullback.identity_pullback, ufl.sobolevspace.L2))
+    c0, vc0, v2c0 = ufl.Coefficient(D0), ufl.Argument(D0, 1), ufl.Argument(D0, 2)
+    dg0 = [("(1+f^2)**c", lambda: (1 + f * f) ** c0), ("(1+f^2 c^2)**c", lambda: (1 + f * f * c0 * c0) ** c0), ("c*c*f", lambda: c0 * c0 * f),
+           ("sin(c)*f + exp(c)", lambda: sin(c0) * f + exp(c0)), ("f/(1+c^2)", lambda: f / (1 + c0 * c0)), ("(1+c^2)**f", lambda: (1 + c0 * c0) ** f),
+           ("abs(c)*g", lambda: abs(c0) * g), ("conditional(c<f, c*c, f*c)", lambda: conditional(lt(c0, f), c0 * c0, f * c0)), ("sqrt(1+c^2)", lambda: sqrt(1 + c0 * c0) * f),
+           ("grad(f).grad(f) c^3", lambda: grad(f)[i] * grad(f)[i] * c0 ** 3), ("max_value(c, f) c", lambda: max_value(c0, f) * c0), ("ln(1+c^2) f", lambda: ln(1 + c0 * c0) * f)]
+    for inm, mk in dg0:
+        e2e(f"derivative/wrt a DG0 coefficient/{inm}", lambda mk=mk: (mk() * dx, derivative(mk() * dx, c0, vc0), [whole(c0, vc0)]))
+    for inm, mk in [dg0[0], dg0[2], dg0[3]]:
+        e2e(f"derivative/second wrt a DG0 coefficient/{inm}", lambda mk=mk: (mk() * dx, derivative(derivative(mk() * dx, c0, vc0), c0, v2c0), [whole(c0, vc0), whole(c0, v2c0)]))
+
     # mixed space coefficient, split, whole derivative
     def mixed():
         mu, mp = split(m)
